@@ -39,6 +39,9 @@ GROUP_WHAT = {
     "C02-toubv-raises": "fpToUBV raises AssertionError for negative / too large rounded values instead of returning a value",
     "C02-fold-raises": "folding raises a Python exception",
     "C02-fpv-float": "claripy.FPV(value, FSORT_FLOAT) of a double outside the float range / precision",
+    "C02-solved-modelcache": "claripy.Solver().add(x == c) seeds the model cache and eval() answers from it through the "
+                             "concrete backend, so the folding defects (rounding mode ignored) reach solver answers "
+                             "for BV-variable expressions; SolverCacheless answers correctly",
     "C02-solved": "value obtained through the solver (Z3 translation / _abstract_fp_val) differs from IEEE-754",
     "C02-other": "other listed failing input",
 }
@@ -46,6 +49,8 @@ GROUP_WHAT = {
 
 def group_of(ev, clause):
     op, rm = ev["op"], ev["rm"]
+    if clause == "solved" and ev["sm"] == "solver":
+        return "C02-solved-modelcache"
     if clause in ("solved", "solved-outcome"):
         return "C02-solved"
     if clause == "outcome":
@@ -106,6 +111,10 @@ def jobs_for(tier, seed, mode="claripy"):
                       "solved": 3 if q else 1})
         for grp in ("unary", "toint", "fptofp", "inttofp", "bits"):
             J.append({**base, "fmt": fmt, "group": grp, "pool": pool})
+            if q and grp == "inttofp":
+                # BV-variable expressions through claripy.Solver().add(x == c) are answered from the model cache by
+                # the concrete backend: sample that route densely here (every 5th case)
+                J[-1]["fresh_every"] = 5
         J.append({**base, "fmt": fmt, "group": "d2", "pool": "quick" if q else "full", "n": nd2})
     nr = 2 if tier == "quick" else 8
     for k in range(nr):
